@@ -69,6 +69,8 @@ def run(rep, pdb, tier):
         ok = setf.get(N) == P(1) and setf.get(M1) == P(2) and setf.get(M2) == P(3) and len(calls) == 1 and \
             [ctx.term(a) for a in call_args(calls[0])] == [COMPACT, P(1), lin_add(lin_add(P(2), P(3)), num(1))]
         rep.add("layout/resize", rule + " re-established by resize", ok, fn["body"], "", where=loc(fn["body"]))
+        from .common import rule_no_skipping_return
+        rule_no_skipping_return(rep, pdb, fn, "shape/resize/every-path", what="the layout update")
     # operators preserve the layout and apply the trait's operator to compact
     n_ops = 0
     for fn in pdb.local_fns():
@@ -330,8 +332,10 @@ def run(rep, pdb, tier):
             acc = e.target
             accdef = c2.def_term(acc)
             au_init = c2.def_term(au) == COMPACT if au[0] == "var" else False
-            ok = r[1:4] == (num(0), N, False) and e.value == ("idx", au, ("tup", r[0], num(0))) and (accdef == dvar or acc == dvar) and au_init and _pos(decs[0]) < _pos(e.node)
-            det = "acc starts as d=%s au is a clone of compact=%s i in 0..n=%s" % (accdef == dvar or acc == dvar, au_init, r[1:4] == (num(0), N, False))
+            uncond = not any(a.get("k") in ("If", "Match", "For", "While", "Loop", "Closure") for a in ancestors(decs[0]))
+            ok = r[1:4] == (num(0), N, False) and e.value == ("idx", au, ("tup", r[0], num(0))) and (accdef == dvar or acc == dvar) and au_init and _pos(decs[0]) < _pos(e.node) and uncond
+            det = "acc starts as d=%s au is a clone of compact=%s i in 0..n=%s the factorisation runs unconditionally (no shortcut skips it for some bandwidths)=%s" % (
+                accdef == dvar or acc == dvar, au_init, r[1:4] == (num(0), N, False), uncond)
         rep.add("det", rule, ok, fn["body"], det, where=loc(fn["body"]))
     # ---- solve replay
     fn = pdb.fn("%s::solve" % B)
